@@ -4,6 +4,8 @@
 // out : ITS {k t_before file_before B {id:ready} A {id type area vol tvol P}} # END iter time file ncells
 //       # CELLFILES {n: ncells types.. |} # FACEFILES {n ok} # STATS rows separated by ';'
 #include "tissue.hpp"
+#include <set>
+#include <map>
 #include "solver.hpp"
 #include "mesh_reader.hpp"
 #include <filesystem>
@@ -100,6 +102,15 @@ int main(){
                     { std::ifstream f(out_dir + "/cell_data/result_" + std::to_string(n) + ".vtk"); std::string w; bool found = false;
                       while (f >> w) if (w == "cell_id"){ long comp, cnt; std::string ty; if (f >> comp >> cnt >> ty){ std::cout << " I"; for (long k = 0; k < cnt * comp; k++){ std::string v; if (!(f >> v)) break; std::cout << " " << v; } found = true; } break; }
                       if (!found) std::cout << " I-"; }
+                    // W: per cell of the file, 1 iff its triangles form a closed consistently oriented surface that uses every point of the cell
+                    std::cout << " W";
+                    for (const mesh& m : ms){
+                        std::map<std::pair<unsigned,unsigned>, int> he; std::set<unsigned> usedp; bool ok_ = true;
+                        for (auto& f : m.face_point_ids){ if (f.size() != 3){ ok_ = false; continue; } for (int k = 0; k < 3; k++){ he[{f[k], f[(k+1)%3]}]++; usedp.insert(f[k]); } }
+                        for (auto& kv : he){ if (kv.second != 1) ok_ = false; auto it = he.find({kv.first.second, kv.first.first}); if (it == he.end() || it->second != 1) ok_ = false; }
+                        if (usedp.size() != m.node_pos_lst.size() / 3) ok_ = false;
+                        std::cout << " " << (ok_ ? 1 : 0);
+                    }
                 } catch (const std::exception& e){ std::cout << " UNREADABLE"; }
                 std::cout << " |";
             }
